@@ -141,7 +141,22 @@ func (x *Run) intrinsic(fr *Frame, st *State, fn *ssa.Function, args []Val, site
 	case "Sent":
 		// Sent(ch, v): a send of v on ch happened on this path
 		return single(st, Val{T: x.eventMatch(st, "send", args), S: SBool}), true
-	case "SameObject":
+	case "FreeVar":
+		// value of the captured variable of the (closure) target, by name
+		vname, _ := x.litString(args[0].T)
+		if cf != nil && cf.con != nil && cf.con.Target != nil {
+			bs := x.targetBindings(cf, st)
+			for i, fv := range cf.con.Target.FreeVars {
+				if fv.Name() == vname && i < len(bs) {
+					if bs[i].Addr != nil && bs[i].Addr.Kind == ACell {
+						return single(st, x.load(st, bs[i].Addr, nil)), true
+					}
+					return single(st, bs[i]), true
+				}
+			}
+		}
+		return single(st, x.freshVal(st, "nofv", fn.Signature.Results().At(0).Type())), true
+	case "SameObject", "Same":
 		return single(st, Val{T: eq(args[0].T, args[1].T), S: SBool}), true
 	case "SentOn":
 		return single(st, Val{T: x.eventMatch(st, "send", args[:1]), S: SBool}), true
@@ -240,6 +255,60 @@ func (x *Run) intrinsic(fr *Frame, st *State, fn *ssa.Function, args []Val, site
 			}
 		}
 		return single(st, Val{T: or(alts...), S: SBool}), true
+	case "IterArg", "IterRet":
+		// argument / result i of the last call matching s within the current loop iteration
+		sname, _ := x.litString(args[0].T)
+		idx, _ := litInt(args[1].T)
+		start := 0
+		for i, e := range st.events {
+			if strings.HasPrefix(e.Name, "loop:") {
+				start = i + 1
+			}
+		}
+		want := x.d.sortOf(fn.Signature.Results().At(0).Type())
+		for i := len(st.events) - 1; i >= start; i-- {
+			e := st.events[i]
+			if !evNameMatch(e.Name, sname) {
+				continue
+			}
+			var r Val
+			if name == "IterArg" {
+				if idx < len(e.Args) {
+					r = e.Args[idx]
+				}
+			} else {
+				r = e.Ret
+				if r.S == "Tuple" && idx < len(r.Tup) {
+					r = r.Tup[idx]
+				}
+			}
+			if r.S == want {
+				return single(st, r), true
+			}
+			if want == SIface && r.S != "" && r.S != "Tuple" {
+				return single(st, x.box(st, r, fn.Signature.Results().At(0).Type())), true
+			}
+		}
+		return single(st, x.freshVal(st, "noiter", fn.Signature.Results().At(0).Type())), true
+	case "RunClosure":
+		// runs (now, on this path) the most recent closure created on this path whose
+		// function name contains s: "what would this registered callback do?"
+		sname, _ := x.litString(args[0].T)
+		for i := len(st.closures) - 1; i >= 0; i-- {
+			c := st.closures[i]
+			if c.Clo != nil && strings.Contains(c.Clo.Fn.String(), sname) {
+				f := &Frame{fn: c.Clo.Fn, env: map[ssa.Value]Val{}, names: map[string]Val{}, parent: fr, mode: ModeNormal, cut: map[*ssa.BasicBlock]bool{}, unroll: map[*ssa.BasicBlock]int{}, depth: fr.depth + 1, selfRun: true}
+				outs := x.runFrame(f, nil, c.Clo.Bindings, st)
+				var res []Outcome
+				for _, o := range outs {
+					if !o.panic {
+						res = append(res, Outcome{st: o.st, ret: Val{T: "true", S: SBool}})
+					}
+				}
+				return res, true
+			}
+		}
+		return single(st, Val{T: "false", S: SBool}), true
 	case "CalledBefore":
 		a, _ := x.litString(args[0].T)
 		b, _ := x.litString(args[1].T)
